@@ -981,6 +981,10 @@ func runCertCase(c *core.Ctx, r *rand.Rand, id string, cs *c04Case) {
 	for _, m := range checkCert(cs, parentSubject, parentRaw, got) {
 		c.Violation("cert-roundtrip:field:"+fieldLabel(m), m, id, input)
 	}
+	// RFC 5280 4.1.2.5: validity in Zulu form, UTCTime through 2049, GeneralizedTime from 2050 (both parsers accept offsets and would hide it)
+	if !bytes.Contains(der, derSeq(derTime(cs.Tpl.NotBefore), derTime(cs.Tpl.NotAfter))) {
+		c.Violation("cert-roundtrip:encoding:validity-not-utc-zulu", fmt.Sprintf("validity is not encoded as %x", derSeq(derTime(cs.Tpl.NotBefore), derTime(cs.Tpl.NotAfter))), id, input)
+	}
 	// signature
 	var serr error
 	if cs.Mode == "self-signed" {
